@@ -16,9 +16,14 @@ Vers == {"ok", "fail"}
 \* What a node can do with a call.  "error" carries a reason (the shape of the error it returns).
 \* "held": the reply (accept if the reason is "none", else that error) is held back by the
 \* environment until the NEXT submission on the same instance has returned (overlap).
-Outs == {"accept", "error", "slowok", "late", "hang", "held"}
+\* "slowok" / "slowerr": the acceptance / the error (with its reason) comes after a delay that is still
+\* well within the time-out; the delay is a RANK (field `lat`, 1..MaxLat of Submitter.tla; 0 = the
+\* default rank 2), so that the environment also chooses the ORDER in which the nodes' replies arrive:
+\* several rejections before the first acceptance, an acceptance between two rejections, ...
+Outs == {"accept", "error", "slowok", "slowerr", "late", "hang", "held"}
 Reasons == {"none",
             "plain",            \* free text, no JSON
+            "deadline",         \* the node's client gave up: an error wrapping context.DeadlineExceeded
             "lhPrior",          \* lighthouse: PriorAttestationKnown
             "lhUnknownHead",    \* lighthouse: UnknownHeadBlock
             "nimbusTarget",     \* nimbus: Attempt to send attestation for unknown target
@@ -48,17 +53,22 @@ Tolerated(kind, client, reason) ==
 
 \* Reasons that make sense to script per kind (any other combination is simply a rejection).
 ReasonsOf(kind) ==
-    CASE kind = "att" -> {"plain", "lhPrior", "lhUnknownHead", "nimbusTarget", "noFailures", "attMixed"}
-      [] kind = "syncmsg" -> {"plain", "lhDupAll", "lhDupSome", "tekuDupAll", "tekuDupSome",
+    CASE kind = "att" -> {"plain", "deadline", "lhPrior", "lhUnknownHead", "nimbusTarget", "noFailures", "attMixed"}
+      [] kind = "syncmsg" -> {"plain", "deadline", "lhDupAll", "lhDupSome", "tekuDupAll", "tekuDupSome",
                               "noFailures", "emptyFailures", "badJson"}
-      [] kind = "contrib" -> {"plain", "lhAggKnownAll", "lhAggKnownSome", "noFailures",
+      [] kind = "contrib" -> {"plain", "deadline", "lhAggKnownAll", "lhAggKnownSome", "noFailures",
                               "emptyFailures", "badJson"}
-      [] OTHER -> {"plain", "lhPrior", "noFailures"}
+      [] OTHER -> {"plain", "deadline", "lhPrior", "noFailures"}
 
 \* A node at one submission: who it is (client), whether its version query works during this
 \* submission (ver), what it does with the payload (out, reason).
-NodeV(client, ver, out, reason) == [client |-> client, ver |-> ver, out |-> out, reason |-> reason]
+NodeL(client, ver, out, reason, lat) == [client |-> client, ver |-> ver, out |-> out, reason |-> reason, lat |-> lat]
+NodeV(client, ver, out, reason) == NodeL(client, ver, out, reason, 0)
 Node(client, out, reason) == NodeV(client, "ok", out, reason)
+\* the rank of a delayed reply (0 = not said: the default slow reply, rank 2)
+LatOf(nd) == IF nd.lat = 0 THEN 2 ELSE nd.lat
+\* the reply is an error (sooner or later)
+IsErr(nd) == nd.out \in {"error", "slowerr"} \/ (nd.out = "held" /\ nd.reason # "none")
 
 \* The client type the node reports at this submission ("none": it does not say, or cannot be asked)
 Reported(nd) == IF nd.ver = "ok" /\ nd.client \notin {"unknown", "broken"} THEN nd.client ELSE "none"
@@ -73,8 +83,18 @@ TolReason(kind) ==
       [] kind = "contrib" -> "lhAggKnownAll"
       [] OTHER -> "lhPrior"        \* nothing is tolerated for the other kinds: a plain rejection
 Outcomes == {"accept", "reject", "treject", "malformed", "slowok", "late", "hang"}
+\* The widened alphabet (round 4): delayed replies of either sign with a rank, so that rejections can
+\* arrive before, between and after acceptances within the time-out.
+SlowOutcomes == {"slowok1", "slowok2", "slowok3", "slowrej1", "slowrej2", "slowtrej1", "slowtrej2"}
+WideOutcomes == Outcomes \cup SlowOutcomes
+SlowSign(o) == IF o \in {"slowok1", "slowok2", "slowok3"} THEN "ok" ELSE IF o \in {"slowrej1", "slowrej2"} THEN "rej" ELSE "trej"
+SlowLat(o) == IF o \in {"slowok1", "slowrej1", "slowtrej1"} THEN 1 ELSE IF o = "slowok3" THEN 3 ELSE 2
 Canon(kind, o) ==
-    CASE o = "accept" -> Node("prysm", "accept", "none")
+    CASE o \in SlowOutcomes ->
+           (IF SlowSign(o) = "ok" THEN NodeL("teku", "ok", "slowok", "none", SlowLat(o))
+            ELSE IF SlowSign(o) = "rej" THEN NodeL("lighthouse", "ok", "slowerr", "plain", SlowLat(o))
+            ELSE NodeL(TolClient(kind), "ok", "slowerr", TolReason(kind), SlowLat(o)))
+      [] o = "accept" -> Node("prysm", "accept", "none")
       [] o = "reject" -> Node("lighthouse", "error", "plain")
       [] o = "treject" -> Node(TolClient(kind), "error", TolReason(kind))
       [] o = "malformed" -> Node(TolClient(kind), "error", "noFailures")
@@ -94,9 +114,13 @@ TolReasonOf(kind, client) ==
       [] kind = "syncmsg" /\ client = "teku" -> "tekuDupAll"
       [] kind = "contrib" /\ client = "lighthouse" -> "lhAggKnownAll"
       [] OTHER -> "lhPrior"
-HistOutcomesAll == Outcomes \cup {"heldok", "heldrej", "heldtrej"}
+HistOutcomesAll == WideOutcomes \cup {"heldok", "heldrej", "heldtrej"}
 HNode(kind, client, o, v) ==
-    CASE o = "accept" -> NodeV(client, v, "accept", "none")
+    CASE o \in SlowOutcomes ->
+           (IF SlowSign(o) = "ok" THEN NodeL(client, v, "slowok", "none", SlowLat(o))
+            ELSE IF SlowSign(o) = "rej" THEN NodeL(client, v, "slowerr", "plain", SlowLat(o))
+            ELSE NodeL(client, v, "slowerr", TolReasonOf(kind, client), SlowLat(o)))
+      [] o = "accept" -> NodeV(client, v, "accept", "none")
       [] o = "reject" -> NodeV(client, v, "error", "plain")
       [] o = "treject" -> NodeV(client, v, "error", TolReasonOf(kind, client))
       [] o = "malformed" -> NodeV(client, v, "error", "noFailures")
